@@ -8,11 +8,15 @@ from fdtdx.fdtd.fdtd import _reversible_slice_boundaries
 def D(a, b):
     return float(np.abs(np.asarray(a) - np.asarray(b)).max()) if np.asarray(a).size else 0.0
 
-def run(spec, g):
+def run(spec, g, again=False):
+    """again: start the run from the container RETURNED by a first run under the same configuration (non-zero fields and detector
+    states, e.g. an optimisation loop): run_fdtd resets the container, so the result must be the same"""
     s = dict(spec); s["grad"] = g
     try:
         oc, arrays, cfg, _ = build(s)
         t, out = fdtdx.run_fdtd(arrays=arrays, objects=oc, config=cfg, key=KEY, show_progress=False)
+        if again:
+            t, out = fdtdx.run_fdtd(arrays=out, objects=oc, config=cfg, key=KEY, show_progress=False)
     except Exception as e:
         return {"error": type(e).__name__ + ": " + str(e)[:120]}
     return {"t": int(t), "out": out, "T": int(cfg.time_steps_total)}
@@ -35,8 +39,18 @@ def main():
                 res.append({"g": g, "error": r["error"]}); continue
             o, b = r["out"], base["out"]
             dd = {k: {kk: D(v, b.detector_states[k][kk]) for kk, v in st.items()} for k, st in o.detector_states.items()}
-            res.append({"g": g, "t": r["t"], "dE": D(o.fields.E, b.fields.E), "dH": D(o.fields.H, b.fields.H) ,
-                        "ddet": max([0.0] + [v for d in dd.values() for v in d.values()])})
+            rec = {"g": g, "t": r["t"], "dE": D(o.fields.E, b.fields.E), "dH": D(o.fields.H, b.fields.H),
+                   "ddet": max([0.0] + [v for d in dd.values() for v in d.values()])}
+            if len(res) % 2 == 1 and g["method"] != "reversible":      # every reversible configuration, every other checkpointed one
+                res.append(rec); continue
+            r2 = run(c["spec"], g, again=True)
+            if "error" in r2:
+                rec["again_error"] = r2["error"]
+            else:
+                o2 = r2["out"]
+                dd2 = {k: {kk: D(v, b.detector_states[k][kk]) for kk, v in st.items()} for k, st in o2.detector_states.items()}
+                rec.update(t2=r2["t"], dE2=D(o2.fields.E, b.fields.E), dH2=D(o2.fields.H, b.fields.H), ddet2=max([0.0] + [v for d in dd2.values() for v in d.values()]))
+            res.append(rec)
         dmax = max([0.0] + [float(np.abs(np.asarray(v)).max()) for st in base["out"].detector_states.values() for v in st.values()])
         outs.append({"T": base["T"], "t0": base["t"], "scale": scale, "detscale": dmax, "runs": res})
     emit({"outs": outs})
